@@ -639,7 +639,9 @@ def access_path_simple(e: ast.AST) -> bool:
 
 
 class TemplateIndex:
-    def __init__(self, idx: PyIndex, modules_prefix: Tuple[str, ...] = ('pydbml.renderer.', 'pydbml.tools')):
+    def __init__(self, idx: PyIndex, modules_prefix: Tuple[str, ...] = ('pydbml.renderer.', 'pydbml.tools'), innermost_context: bool = False):
+        # innermost_context: for outer(helper(value)) where outer() only places the text, report the context helper() writes the value in
+        self.innermost_context = innermost_context
         self.idx = idx
         self.funcs: Dict[str, FuncInfo] = {fid: fi for fid, fi in idx.funcs.items()
                                            if fi.module.startswith(modules_prefix) and not isinstance(fi.node, ast.Lambda)}
@@ -814,8 +816,22 @@ class TemplateIndex:
                         t, pol = canon(in_caller_terms(g[0]), g[1])
                         return t in decided and decided[t] != pol
                     inner = [si for si in inner if not any(contradicted(g) for g in si.guards)]
+                inner_helpers = [w_ for w_ in s.wrappers[:k] if not w_.startswith('.') and (lambda c_: c_ is not None and c_.id in self.sinks)(self.resolve_func(s.fn, w_))]
                 for si in inner:
                     for fin, ws, gs, ch in self.expand_c(si, depth + 1):
+                        if self.innermost_context and not fin.quote and inner_helpers and depth <= 3:
+                            # outer(helper(value)): the outer helper only places the text helper() has made (no quotes of its own around it), so the value's
+                            # context is the one helper() writes it in
+                            import copy as _copy
+                            s2 = _copy.copy(s)
+                            s2.wrappers = list(s.wrappers[:k])
+                            s2.arg_index = 0
+                            s2.guards = []
+                            sub = self.expand_c(s2, depth + 1)
+                            if any(f2 is not s2 for f2, _, _, _ in sub):
+                                for f2, ws2, gs2, ch2 in sub:
+                                    res.append((f2, ws2 + ws, list(s.guards) + gs + gs2, [s] + ch + ch2[1:]))
+                                continue
                         res.append((fin, s.wrappers[:k] + ws, list(s.guards) + gs, [s] + ch))
                 return res
         return [(s, list(s.wrappers), list(s.guards), [s])]
